@@ -393,7 +393,7 @@ def run(tier, seed, view="C03"):
     # native bounded stand-in for format_string / whole literals
     sweep = {}
     if binpath:
-        rc, out, dt = oracle(binpath, "sweep", str(SWEEP_LEN[tier]))
+        rc, out, dt = oracle(binpath, "sweep", str(SWEEP_LEN[tier]), timeout=1800)
         m = re.search(r"SWEEP strings=(\d+) accepted_by_spec=(\d+) not_exactly_equal=(\d+) violations=(\d+)", out)
         if m:
             sweep = dict(strings=int(m.group(1)), accepted_by_spec=int(m.group(2)), not_exactly_equal=int(m.group(3)),
